@@ -169,6 +169,18 @@ Definition value_spec (v : value) (trail : list nat) : Prop :=
       (xs = [] -> s_col (after s consumed) = 0) /\
       value_scan s c = Ok (after s consumed, value_meaning v trail).
 
+(* the same value directly followed by an indented comment line: the scan reads on over that
+   line's indentation and stops in front of the '#' *)
+Definition icomment_value_ok (v : value) (n : nat) : bool :=
+  match v with VBlock _ _ _ _ indent _ _ => Nat.ltb n indent | _ => true end.
+
+Definition value_spec_ic (v : value) (trail : list nat) : Prop :=
+  forall m, eats_value v = true -> icomment_value_ok v (S m) = true ->
+  forall c r, value_text v trail = c :: r ->
+  forall s t0, s_col s <> 0 ->
+    s_rest s = value_text v trail ++ sp (S m) ++ 35 :: t0 ->
+    value_scan s c = Ok (after s (value_text v trail ++ sp (S m)), value_meaning v trail).
+
 (* ------------------------------------------------------------------ items *)
 
 Definition is_comment (it : item) : bool := match it with IComment _ _ _ => true | _ => false end.
@@ -202,6 +214,12 @@ Definition item_ok (it : item) : Prop :=
   match it with
   | IComment _ _ _ => True
   | IKV k _ v trail => key_spec k /\ (match v with VNone _ _ => True | _ => value_spec v trail end)
+  end.
+
+Definition item_ic_ok (it : item) : Prop :=
+  match it with
+  | IComment _ _ _ => True
+  | IKV _ _ v trail => value_spec_ic v trail
   end.
 
 Definition starts_icomment (items : list item) : Prop :=
@@ -238,12 +256,9 @@ Qed.
 Lemma wf_adj_tail it r : wf_adj (it :: r) = true -> wf_adj r = true.
 Proof. cbn [wf_adj]. intros H. apply andb_true_iff in H. tauto. Qed.
 
-Lemma wf_adj_follow it r : wf_adj (it :: r) = true -> eats_indent it = true -> ~ starts_icomment r.
-Proof.
-  cbn [wf_adj]. intros H He Hs. apply andb_true_iff in H as [H _]. rewrite He in H.
-  destruct r as [|[[|n] tx tr|k ksp v tr] r']; cbn [starts_icomment] in Hs; try contradiction.
-  discriminate.
-Qed.
+Lemma wf_adj_icomment it n tx tr r :
+  wf_adj (it :: IComment (S n) tx tr :: r) = true -> icomment_ok it (S n) = true.
+Proof. cbn [wf_adj]. intros H. apply andb_true_iff in H as [H _]. exact H. Qed.
 
 (* leading comment items are line tails *)
 Fixpoint lead_comments (items : list item) : list ltail * list item :=
@@ -274,6 +289,14 @@ Proof.
 Qed.
 
 Lemma lead_comments_ok items : Forall item_ok items -> Forall item_ok (snd (lead_comments items)).
+Proof.
+  induction items as [|[n tx tr|k ksp v tr] items IH]; intros H; cbn [lead_comments].
+  - exact H.
+  - inversion H; subst. destruct (lead_comments items) as [a b]. cbn [snd] in *. auto.
+  - exact H.
+Qed.
+
+Lemma lead_comments_ic items : Forall item_ic_ok items -> Forall item_ic_ok (snd (lead_comments items)).
 Proof.
   induction items as [|[n tx tr|k ksp v tr] items IH]; intros H; cbn [lead_comments].
   - exact H.
@@ -376,6 +399,7 @@ Ltac value_case_end IH r' f n HREST :=
       | assumption
       | assumption
       | assumption
+      | assumption
       | split; [|split; assumption];
         apply rest_after; rewrite Hrs5, Esplit, <- HREST, <- !app_assoc; reflexivity
       | assumption
@@ -394,20 +418,21 @@ Qed.
 
 Lemma tokenize_f_spec FIN PF K : fin_ok FIN -> fin_spec FIN PF K ->
   forall n items, (length items <= n)%nat -> forall fuel s xs,
-  forallb wf_item items = true -> wf_adj items = true -> Forall item_ok items -> tok_inv FIN s xs items ->
+  forallb wf_item items = true -> wf_adj items = true -> Forall item_ok items -> Forall item_ic_ok items ->
+  tok_inv FIN s xs items ->
   (length items + K < fuel)%nat ->
   exists toks, tokenize_f fuel s = (toks, None) /\ tok_shape toks (meaning_items items ++ PF).
 Proof.
   intros HFIN HFS.
-  induction n as [|n IH]; intros items Hn fuel s xs Hwf Hadj Hok [Hr [Hxs Hcol]] Hf.
+  induction n as [|n IH]; intros items Hn fuel s xs Hwf Hadj Hok Hic [Hr [Hxs Hcol]] Hf.
   - (* no item left *)
     destruct items; [|cbn [length] in Hn; lia].
     unfold print_items in Hr. cbn [map concat app] in Hr.
     apply (HFS fuel s xs Hxs Hcol Hr). cbn [length] in Hf. lia.
   - pose proof (lead_comments_spec items Hwf) as HL. pose proof (lead_comments_ok items Hok) as Hokr.
-    pose proof (lead_comments_adj items Hadj) as Hadjr.
+    pose proof (lead_comments_adj items Hadj) as Hadjr. pose proof (lead_comments_ic items Hic) as Hicr.
     assert (Hf0 : (K < fuel)%nat) by (clear - Hf; lia).
-    destruct (lead_comments items) as [cx r]. cbn [snd] in Hokr, Hadjr.
+    destruct (lead_comments items) as [cx r]. cbn [snd] in Hokr, Hadjr, Hicr.
     destruct HL as (HL1 & HL2 & HL3 & HL4 & HL5 & HL6).
     assert (Hr1 : s_rest s = print_ltails (xs ++ cx) ++ print_items r ++ FIN).
     { rewrite Hr, HL1, print_ltails_app, <- !app_assoc. reflexivity. }
@@ -424,12 +449,10 @@ Proof.
       cbn [forallb wf_item] in HL3. apply andb_true_iff in HL3 as [Hkv Hwf'].
       apply andb_true_iff in Hkv as [Hkv Hwtr]. apply andb_true_iff in Hkv as [Hwk Hwv].
       inversion Hokr as [|? ? Hio Hok']; subst. cbn [item_ok] in Hio. destruct Hio as [Hks Hvs].
+      inversion Hicr as [|? ? Hvic Hic']; subst. cbn [item_ic_ok] in Hvic.
       destruct Hks as (c & rk & Ek & Hkc & Hkscan).
       pose proof (wf_adj_tail _ _ Hadjr) as Hadj'.
       destruct (items_start FIN r' HFIN Hwf') as (c0 & t0 & HREST & Hc0').
-      assert (Hc0 : eats_value v = true -> item_start c0).
-      { intros He. destruct Hc0' as [Hc0'|[_ Hsc]]; [exact Hc0'|].
-        exfalso. apply (wf_adj_follow _ _ Hadjr); [exact He | exact Hsc]. }
       unfold print_items in Hr1. cbn [map concat print_item] in Hr1. fold (print_items r') in Hr1.
       destruct (value_first v trail (c0 :: t0) Hwv) as (x & tx & Ex & Hx).
       (* the text from the key on *)
@@ -461,11 +484,62 @@ Proof.
       { unfold s4. erewrite rest_after; [|exact Hrs3]. symmetry. exact Ex. }
       assert (Hn' : (length r' <= n)%nat) by (cbn [length] in Hn, HL5; clear - Hn HL5; lia).
       assert (Hf' : (length r' + K < f)%nat) by (cbn [length] in Hf, HL5; clear - Hf HL5; lia).
+      assert (Hsplit : (eats_value v = true -> item_start c0) \/
+                       (eats_value v = true /\ starts_icomment r')).
+      { destruct Hc0' as [Hc0'|[_ Hsc]]; [left; intros _; exact Hc0'|].
+        destruct (eats_value v); [right; split; [reflexivity | exact Hsc] | left; discriminate]. }
+      destruct Hsplit as [Hc0|[Heat Hsc]].
+      2:{ (* the value reads on into the indentation of a comment line that follows directly *)
+        destruct r' as [|[[|m] ctx tr|k1 ksp1 v1 tr1] r'']; cbn [starts_icomment] in Hsc; try contradiction.
+        pose proof (wf_adj_icomment _ _ _ _ _ Hadjr) as Hico.
+        assert (Hvs' : value_spec v trail) by (destruct v; [discriminate Heat | exact Hvs | exact Hvs]).
+        destruct Hvs' as (cv & rv & Ev & Hcv & _).
+        assert (Hvsp : value_vsp v <> O).
+        { destruct v as [tsp cm|vsp fl tsp cm|vsp folded h lead indent first more]; [discriminate Heat| |];
+            cbn [value_vsp wf_value] in *; repeat (apply andb_true_iff in Hwv as [Hwv _]);
+            (destruct vsp; [discriminate | discriminate]). }
+        set (TXT := ctx ++ [10] ++ bl tr ++ print_items r'' ++ FIN).
+        assert (HREST' : c0 :: t0 = sp (S m) ++ 35 :: TXT).
+        { rewrite <- HREST. unfold print_items, TXT. cbn [map concat print_item]. rewrite <- !app_assoc.
+          cbn [app]. rewrite <- !app_assoc. reflexivity. }
+        assert (Hrs4' : s_rest s4 = print_ltails [] ++ sp (value_vsp v) ++ cv :: (rv ++ c0 :: t0))
+          by (rewrite Hrs4, Ev; reflexivity).
+        pose proof (stnt_spec [] s4 (value_vsp v) cv _ eq_refl Hcv Hrs4') as H5.
+        cbn [print_ltails map concat app] in H5.
+        set (s5 := after s4 (sp (value_vsp v))) in *.
+        assert (Hrs5 : s_rest s5 = value_text v trail ++ sp (S m) ++ 35 :: TXT).
+        { unfold s5. erewrite rest_after; [|exact Hrs4']. rewrite Ev, HREST'. reflexivity. }
+        assert (Hc5 : s_col s5 <> 0)
+          by (unfold s5; rewrite (col_after _ _ (sp_colc _)), sp_length; clear - Hvsp; lia).
+        assert (Hp5 : peek s5 0 = Ok cv) by (eapply peek0; rewrite Hrs5, Ev; reflexivity).
+        assert (Hicv : icomment_value_ok v (S m) = true).
+        { clear - Hico. destruct v; exact Hico. }
+        pose proof (Hvic m Heat Hicv cv rv Ev s5 TXT Hc5 Hrs5) as Hval.
+        rewrite (tok_iter_key_value s s1 c s2 (key_meaning k) s3 s4 s5 cv _ _ H1 Hp1
+                   (key_start_not_end _ Hkc) Hcs1 Hkey H3 Hp3 Hf3 H5 Hp5 Hc5 Hval).
+        cbn [forallb wf_item] in Hwf'. apply andb_true_iff in Hwf' as [Hwtx Hwf''].
+        inversion Hok' as [|? ? _ Hok'']; subst. inversion Hic' as [|? ? _ Hic'']; subst.
+        destruct (IH r'') with (fuel := f) (s := after s5 (value_text v trail ++ sp (S m)))
+                               (xs := (O, Some ctx) :: blanks tr) as (toks & Ht & Hs).
+        - cbn [length] in Hn'. clear - Hn'. lia.
+        - exact Hwf''.
+        - exact (wf_adj_tail _ _ Hadj').
+        - exact Hok''.
+        - exact Hic''.
+        - split; [|split].
+          + apply rest_after. rewrite Hrs5. unfold TXT.
+            rewrite print_ltails_cons, print_blanks. unfold print_ltail. cbn [fst snd sp repeat print_comment app].
+            rewrite <- !app_assoc. reflexivity.
+          + cbn [forallb]. rewrite wf_blanks, andb_true_r. exact Hwtx.
+          + discriminate.
+        - cbn [length] in Hf'. clear - Hf'. lia.
+        - rewrite Ht. eexists. split; [reflexivity|].
+          cbn [meaning_items app]. apply ts_kv. exact Hs. }
       destruct v as [tsp cm|vsp fl tsp cm|vsp folded h lead indent first more].
       * (* key only: everything up to the next key is skipped *)
         pose proof (lead_comments_spec r' Hwf') as HL'. pose proof (lead_comments_ok r' Hok') as Hok''.
-        pose proof (lead_comments_adj r' Hadj') as Hadj''.
-        destruct (lead_comments r') as [cx' r'']. cbn [snd] in Hok'', Hadj''.
+        pose proof (lead_comments_adj r' Hadj') as Hadj''. pose proof (lead_comments_ic r' Hic') as Hic''.
+        destruct (lead_comments r') as [cx' r'']. cbn [snd] in Hok'', Hadj'', Hic''.
         destruct HL' as (HM1 & HM2 & HM3 & HM4 & HM5 & HM6).
         destruct (items_start FIN r'' HFIN HM3) as (c1 & t1 & HREST1 & Hc1).
         assert (Hc1s : stopc c1).
